@@ -6,6 +6,8 @@ Streams
   blocks   the hand-written block models (Lib.Fp.* through Drv/C13.lean: compositions of the C07/C08 constructor models) vs
            the REAL blocks built with the real constructors, run by the real simulator (put → propagateAll → get)
   net      the flattened netlists of the real blocks executed by the Lean simulator model with the generated leaves
+  char     (inside `oracle`) outside the property's domain the Lean oracle evaluates the characterisation theorems C13.charCheck_*
+           on the observed outputs; inside it also the tightened bounds mulTight/addTight: failures = disagreements, not violations
   oracle   the SPECIFICATION (FpSpec.oracle: the property's inequalities in exact integer arithmetic, unit 2^-149, evaluated
            in Lean through the driver on the output bits OBSERVED on the real implementation; the fallback driver
            Drv/C13Spec.lean imports no generated code and no model, so it runs even when a bridge or a model is broken)
@@ -252,10 +254,27 @@ class Batch:
             observed[(blk, p, x)] = obs
             verdicts[(blk, p, x)] = (verdict, cls)
             # --- oracle: the specification evaluated on the observed outputs
-            res.count((blk, p, x), nontrivial=(verdict != 'out'), hist={'block': blk, 'verdict': f'{blk}:{verdict.split(":")[0]}'})
+            res.count((blk, p, x), nontrivial=(not verdict.startswith('out')),
+                      hist={'block': blk, 'verdict': f'{blk}:{verdict.split(":")[0]}'})
             self.branch_hist(blk, x, verdict)
-            if verdict == 'out':
+            if verdict.startswith('out'):
+                # outside the property's domain: no claim; where a characterisation theorem exists (C13.charCheck_*) it is
+                # evaluated by the Lean oracle on the OBSERVED outputs -- a failure is a model-vs-implementation disagreement
+                if verdict != 'out':
+                    res.hist('characterisation', f'{blk}:{verdict[4:]}')
+                    if verdict == 'out:char-FAIL':
+                        res.disagree('characterisation', dict(replay, what='the real block does not do what the '
+                                     'characterisation theorem (C13.charCheck_*) states outside the domain'))
+                verdicts[(blk, p, x)] = ('out', cls)
                 continue
+            if verdict == 'ok-not-tight':
+                # inside the property's bound but outside the tightened one proved for the model (C13.fpmul_tight / fpadd_tight)
+                res.hist('tight_bounds', f'{blk}:NOT-TIGHT')
+                res.disagree('tight-bounds', dict(replay, what='property bound holds, tightened bound (mulTight/addTight) does not'))
+                verdict = 'ok'
+                verdicts[(blk, p, x)] = ('ok', cls)
+            elif verdict == 'ok' and blk in ('add', 'mul'):
+                res.hist('tight_bounds', f'{blk}:tight')
             if verdict.startswith('FAIL'):
                 res.hist('classes', f'{blk}:{cls or "IN-DOMAIN-FAILURE"}')
                 self.n_fail[(blk, cls)] = self.n_fail.get((blk, cls), 0) + 1
@@ -358,6 +377,17 @@ def gen_add(tier, rng):
             yield a, b, 'special'
     for _ in range(100 if q else 3000):
         yield r.choice(sp), r.randint(0, MASK32), 'special'
+    # characterisation C13.fpadd_zero_operand / fpadd_exact_cancellation / fpadd_datapath_all: x + (+-0) and x + (-x) for EVERY
+    # exponent field (also 0 and 255), subnormal operands against every gap
+    for e in range(0, 256):
+        for m in ((0, r.bits(23)) if q else (0, 1, 0x400000, 0x7FFFFF, r.bits(23), r.bits(23))):
+            x = enc(r.next() & 1, e, m)
+            yield x, x ^ (1 << 31), 'cancel'
+            yield x, r.choice([0, 1 << 31]), 'zero-operand'
+            yield r.choice([0, 1 << 31]), x, 'zero-operand'
+            yield x, enc(r.next() & 1, 0, rmant(r)), 'subnormal-operand'
+    for _ in range(200 if q else 10000):
+        yield enc(r.next() & 1, 0, rmant(r)), enc(r.next() & 1, r.choice([0, 0, 1, 2, 24, 25, r.randint(0, 255)]), rmant(r)), 'subnormal-operand'
 
 
 def gen_mul(tier, rng):
@@ -386,10 +416,33 @@ def gen_mul(tier, rng):
         ea = r.randint(1, 254)
         eb = max(1, min(254, 254 - ea + r.randint(-130, 130)))
         yield enc(r.next() & 1, ea, rmant(r)), enc(r.next() & 1, eb, rmant(r)), 'random'
-    sp = [0, 1 << 31, 1, 0x7FFFFF, 0x7F800000, 0xFF800000, 0x7FC00000, enc(0, 127, 0), enc(1, 1, 0), enc(0, 254, 0x7FFFFF)]
+    # full-entropy significand pairs (every bit of the 24x24 product matters: partial-product / carry defects show on a small
+    # fraction of random pairs only) and carry-chain patterns (runs of ones, one-hot, low bytes/halfwords all ones)
+    r = rng.fork('mul-entropy')
+    for _ in range(1500 if q else 200000):
+        e = r.randint(64, 190)
+        yield enc(r.next() & 1, e, r.bits(23)), enc(r.next() & 1, 254 - e, r.bits(23)), 'entropy'
+    pats = [0x7FFFFF, 0x7FFFFE, 0x7FFF00, 0x7F00FF, 0x00FFFF, 0x0000FF, 0x00FF00, 0x7F0000, 0x555555, 0x2AAAAA, 0x333333, 0x0F0F0F]
+    pats += [(1 << k) - 1 for k in range(1, 24)] + [1 << k for k in range(0, 23)] + [0x7FFFFF ^ (1 << k) for k in range(0, 23)]
+    pats = sorted(set(pats))
+    for i, ma in enumerate(pats):
+        for mb in (pats if not q else [pats[(i * 7 + j * 11) % len(pats)] for j in range(5)] + [0x7FFFFF, ma]):
+            yield enc(0, 127, ma), enc(0, 127, mb), 'carry-patterns'
+    # outside the domain (characterisation C13.fpmul_all / fpmul_zero_operand): zero, subnormal, inf, nan operands; overflow/underflow
+    sp = [0, 1 << 31, 1, 0x7FFFFF, 0x80000001, 0x7F800000, 0xFF800000, 0x7FC00000, enc(0, 127, 0), enc(1, 1, 0), enc(0, 254, 0x7FFFFF)]
     for a in sp:
         for b in sp:
             yield a, b, 'special'
+    r = rng.fork('mul-special')
+    for e in (EXPS_B if q else range(0, 256)):
+        for z in (0, 1 << 31):
+            yield z, enc(r.next() & 1, e, rmant(r)), 'zero-operand'
+            yield enc(r.next() & 1, e, rmant(r)), z, 'zero-operand'
+    for _ in range(150 if q else 20000):
+        yield r.choice(sp), r.bits(32), 'special'
+        ea = r.randint(1, 254)       # exact product outside the normal range: the 8-bit exponent wraps
+        yield enc(r.next() & 1, ea, rmant(r)), enc(r.next() & 1, r.choice([r.randint(1, max(1, 126 - ea)) if ea < 126 else 1,
+                                                                         min(254, max(1, 382 - ea + r.randint(0, 20)))]), rmant(r)), 'range'
 
 
 def gen_cmp(tier, rng):
@@ -414,10 +467,34 @@ def gen_cmp(tier, rng):
         else:
             b = enc(r.next() & 1, r.randint(1, 254), rmant(r))
         yield a, b, 'random'
-    sp = [0, 1 << 31, 1, 0x7F800000, 0xFF800000, 0x7FC00000, enc(0, 127, 0)]
+    # a vs -a and a vs a for EVERY exponent field (powers of two and boundary fractions): sign-only decisions
+    for e in range(1, 255):
+        for m in ((0, 0x7FFFFF, r.bits(23)) if q else (0, 1, 0x400000, 0x7FFFFF, r.bits(23))):
+            a = enc(0, e, m)
+            yield a, a ^ (1 << 31), 'negation'
+            yield a ^ (1 << 31), a, 'negation'
+            if not q or m == 0:
+                yield a, a, 'negation'
+                yield a ^ (1 << 31), a ^ (1 << 31), 'negation'
+    # neighbours across an exponent boundary, all sign combinations
+    for e in (EXPS_B if q else range(1, 254)):
+        if e >= 254:
+            continue
+        a, b = enc(0, e, 0x7FFFFF), enc(0, e + 1, 0)
+        for sa in (0, 1):
+            for sb in (0, 1):
+                yield a | (sa << 31), b | (sb << 31), 'exp-boundary'
+                yield b | (sb << 31), a | (sa << 31), 'exp-boundary'
+    # outside the domain (characterisation C13.fpcmp_totalOrder / fpcmp_abs_total): zeros, subnormals, inf, nan x everything
+    sp = [0, 1 << 31, 1, 2, 0x7FFFFF, 0x80000001, 0x80000002, 0x807FFFFF, 0x00400000, 0x7F800000, 0xFF800000, 0x7FC00000,
+          0xFFC00000, 0x7F800001, 0x7FFFFFFF, enc(0, 127, 0), enc(1, 127, 0), enc(0, 1, 0), enc(1, 1, 0), enc(0, 254, 0x7FFFFF)]
     for a in sp:
         for b in sp:
             yield a, b, 'special'
+    for _ in range(200 if q else 20000):
+        a = r.choice(sp) if r.chance(1, 2) else enc(r.next() & 1, r.choice([0, 0, 255]), rmant(r))
+        b = r.choice(sp) if r.chance(1, 3) else enc(r.next() & 1, r.choice([0, 1, 254, 255, r.randint(0, 255)]), rmant(r))
+        yield a, b, 'special'
 
 
 def gen_f2i(tier, rng):
@@ -463,7 +540,13 @@ def gen_i2f(tier, rng):
 
 
 FX_CONFIGS_Q = [(32, 31), (32, 15), (16, 7), (8, 3), (8, 7), (8, 0), (5, 2), (1, 0), (2, 0), (24, 11), (31, 30), (10, 4)]
-FX_CONFIGS_T = FX_CONFIGS_Q + [(w, f) for w in range(1, 33) for f in (0, (w - 1) // 2, w - 1)]
+# formats outside "0 <= f1 < aw": the constructor accepts any integer f[1] (the 8-bit exponent constant 127+f[1] and the Sub wrap):
+# negative / large f1 inside the normal range (domain of C13.fixedtofp_spec), and formats whose values leave it (verdict "out",
+# model-vs-real only: the 8-bit wrap of the exponent is part of the model, C13.fixedtofp_eq)
+FX_CONFIGS_X = [(8, -5), (8, 127), (8, -119), (8, 130), (8, -130), (8, 200), (6, -300), (4, 124), (4, -124), (3, 1000),
+                (32, 127), (32, -95), (32, -96), (16, 120), (16, -111), (16, -112), (20, 128)]
+FX_CONFIGS_Q = FX_CONFIGS_Q + FX_CONFIGS_X
+FX_CONFIGS_T = FX_CONFIGS_Q + [(w, f) for w in range(1, 33) for f in (0, (w - 1) // 2, w - 1, w - 127, 127, -150, 140)]
 
 
 def gen_fx(tier, rng):
@@ -603,8 +686,14 @@ def main(res, tier, rng, replay):
         'property: compared model-vs-real only',
         'the two former findings (adder exponent gap >= 32, FPtoInt p_lost on odd integers) are repaired in /repo (f8136d7, 87c4dcb): '
         'their classes are still computed by the oracle and a failure inside them is reported as a regression (VIOLATION)',
-        'FixedPointtoFP_SP is not named by the property text; it is modelled, tied to the real block and checked against the same '
-        'truncation spec under the format reading value = a * 2^(f[1] + 1 - width)',
+        'FixedPointtoFP_SP is not named by the property text; it is modelled, PROVED (C13.fixedtofp_spec: every width 1..32, every '
+        'integer f[1], every encoding whose exact value is 0 or in the normal range) and checked on the real block against the same '
+        'truncation spec under the format reading value = a * 2^(f[1] + 1 - width); formats/encodings whose exact value leaves the '
+        'normal range are model-vs-real only (the 8-bit exponent wraps, C13.fixedtofp_eq)',
+        'outside the domain the Lean oracle also evaluates the characterisation theorems (C13.charCheck_*: comparator = IEEE totalOrder '
+        'on all encodings, 0*x, x+0, x-x) on the observed outputs (verdicts out:char-ok / out:char-FAIL) and inside the domain the '
+        'tightened bounds C13.fpmul_tight / fpadd_tight (verdict ok-not-tight); a failure of either is reported as a model-vs-'
+        'implementation disagreement, never as a violation of the property (which claims neither)',
     ]
 
 
@@ -625,6 +714,15 @@ PROPS = [
     'C13.fpadd_swap', 'C13.fpaddCore_eq', 'C13.fpadd_datapath', 'C13.fpadd_datapath_far', 'C13.add_exact', 'C13.norm_mant',
     'C13.norm_exp', 'C13.norm_value', 'C13.fpaddCore_ulp', 'C13.fpadd_sign_ulp', 'C13.fpadd_sign_ulp_iff', 'C13.fpadd_comm_fields',
     'C13.fpadd_comm',
+    # (5) FixedPointtoFP_SP: every accepted format
+    'C13.fixedtofp_eq', 'C13.fixedtofp_spec', 'C13.fixedtofp_format', 'C13.fixedtofp_oracle', 'C13.fixedtofp_int',
+    # (6) tightened bounds and their tightness
+    'C13.fpmul_tight', 'C13.fpmul_bound_tight', 'C13.fpaddCore_strong', 'C13.fpadd_tight',
+    'C13.fpadd_bound_tight', 'C13.fpadd_cancellation_witness',
+    # (7) characterisation outside the domain
+    'C13.magx_lt_iff', 'C13.magx_eq_iff', 'C13.fpcmp_abs_total', 'C13.fpcmp_totalOrder', 'C13.fpcmp_nonzero_spec',
+    'C13.fpmul_all', 'C13.fpmul_zero_operand', 'C13.fpadd_datapath_all', 'C13.fpadd_zero_operand', 'C13.fpadd_exact_cancellation',
+    'C13.charCheck_cmp', 'C13.charCheck_cmpabs', 'C13.charCheck_mul', 'C13.charCheck_add',
 ]
 
 if __name__ == '__main__':
